@@ -32,7 +32,7 @@ Sep(L) == IF L.sp = "tight" THEN <<>> ELSE <<W(" ")>>
 \* where conventions differ and the property is silent)
 NeedsParens(child, parentOp, side) ==
     \/ child.k \in {"cond", "test"}
-    \/ child.k = "un" /\ ~(child.op \in {"-", "+"} /\ side = "left" /\ parentOp # "^")
+    \/ child.k = "un" /\ ~(child.op \in {"-", "+"} /\ parentOp # "^")
     \/ child.k = "bin" /\ ( Prec(child.op) < Prec(parentOp)
                           \/ (Prec(child.op) = Prec(parentOp) /\ side = "right") )
 
